@@ -204,12 +204,14 @@ theorem mbk_execTx_eq {s s1 : State} {party : Party} {p : Peer} {id : Id} {ops :
     split
     · simp
     · split
-      · simp
+      · split <;> simp
       · split
         · simp
         · split
           · simp
-          · split <;> simp
+          · split
+            · simp
+            · split <;> simp
 
 @[simp] theorem mbk_getUpdates (s : State) (w : Nat) : mbk (getUpdates s w) = mbk s := by
   unfold getUpdates
